@@ -253,3 +253,60 @@ Qed.
 Lemma line_ok_pinned_refuted :
   exists allowed l, line_ok_pinned allowed l = true /\ line_ok allowed l = false.
 Proof. exists [[107]], [107; 32; 123; 32; 125; 32; 106; 117; 110; 107]. split; vm_compute; reflexivity. Qed.
+
+
+(* ------------------------------------------------------------------ boolean values: the WHOLE value text is compared *)
+Definition bool_spelling (data : list Z) (b : bool) : Prop :=
+  (b = true /\ (data = str_on \/ data = str_yes \/ data = str_true)) \/
+  (b = false /\ (data = str_off \/ data = str_no \/ data = str_false)).
+
+Lemma bool_value_strict : forall data b, bool_value data = SAccept b <-> bool_spelling data b.
+Proof.
+  intros data b. unfold bool_value, bool_spelling. split.
+  - intros H.
+    destruct (list_eqb data str_on || list_eqb data str_yes || list_eqb data str_true) eqn:E1.
+    + injection H as Hb. left. split; [symmetry; exact Hb|].
+      apply orb_true_iff in E1. destruct E1 as [E1|E1]; [apply orb_true_iff in E1; destruct E1 as [E1|E1]|];
+        apply list_eqb_eq in E1; auto.
+    + destruct (list_eqb data str_off || list_eqb data str_no || list_eqb data str_false) eqn:E2; [|discriminate].
+      injection H as Hb. right. split; [symmetry; exact Hb|].
+      apply orb_true_iff in E2. destruct E2 as [E2|E2]; [apply orb_true_iff in E2; destruct E2 as [E2|E2]|];
+        apply list_eqb_eq in E2; auto.
+  - intros [[Hb Hd]|[Hb Hd]]; subst b; destruct Hd as [Hd|[Hd|Hd]]; subst data; reflexivity.
+Qed.
+
+Lemma bool_value_reject : forall data, (forall b, ~ bool_spelling data b) -> bool_value data = SReject.
+Proof.
+  intros data H. destruct (bool_value data) as [b|] eqn:E; [|reflexivity].
+  apply bool_value_strict in E. exfalso. exact (H b E).
+Qed.
+
+(* nothing may follow (or precede) an accepted spelling: one more byte on either side, whatever it is, is refused *)
+Lemma bool_value_whole_text : forall data b, bool_value data = SAccept b ->
+  forall pre suf, pre ++ suf <> [] -> bool_value (pre ++ data ++ suf) = SReject.
+Proof.
+  intros data b H pre suf Hne. apply bool_value_strict in H. apply bool_value_reject. intros b' H'.
+  assert (Hlen : length (pre ++ data ++ suf) = (length pre + length data + length suf)%nat)
+    by (rewrite !app_length; lia).
+  assert (Hpos : (0 < length pre + length suf)%nat).
+  { destruct pre; [destruct suf; [exfalso; apply Hne; reflexivity|cbn; lia]|cbn; lia]. }
+  unfold bool_spelling, str_on, str_yes, str_true, str_off, str_no, str_false in *.
+  destruct H as [[_ [Hd|[Hd|Hd]]]|[_ [Hd|[Hd|Hd]]]]; subst data;
+  destruct H' as [[_ [Hd'|[Hd'|Hd']]]|[_ [Hd'|[Hd'|Hd']]]];
+  pose proof (f_equal (@length Z) Hd') as HL; rewrite Hlen in HL; cbn [length] in HL; try lia;
+  (* the longer spellings that could hold a shorter one: compare the bytes *)
+  destruct pre as [|p0 [|p1 [|p2 [|p3 pre]]]]; cbn [length] in HL; try lia;
+  destruct suf as [|s0 [|s1 [|s2 [|s3 suf]]]]; cbn [length] in HL; try lia; cbn in Hd'; try discriminate Hd'; congruence.
+Qed.
+
+(* the weaker first-word rule accepts text that the rule of the parser refuses *)
+Lemma bool_first_word_refuted :
+  (* "on junk" *)
+  (bool_value_first_word [111; 110; 32; 106; 117; 110; 107] = SAccept true /\
+   bool_value [111; 110; 32; 106; 117; 110; 107] = SReject) /\
+  (* "off on" (the value text of `flagA off flagB on` with flagB erased or not) *)
+  (bool_value_first_word [111; 102; 102; 32; 111; 110] = SAccept false /\
+   bool_value [111; 102; 102; 32; 111; 110] = SReject) /\
+  (* blanks or line ends around the spelling (a value given in braces over several lines) are refused as well *)
+  bool_value [10; 32; 111; 110; 10] = SReject.
+Proof. repeat split; vm_compute; reflexivity. Qed.
